@@ -4,6 +4,7 @@ import (
 	"bytes"
 	"encoding/json"
 	"fmt"
+	"io"
 	"net/http/httptest"
 	"reflect"
 	"strings"
@@ -592,7 +593,12 @@ func CheckC08(p *Pkg, e *Env, r *res.Result) {
 		var decoded reflect.Value
 		var derr error
 		if viaHTTP {
-			req := httptest.NewRequest(tg.Op.Method, "http://h.example"+p.BasePath+concretePath(tg.Op.Template), bytes.NewReader(text))
+			var bodyReader io.Reader = bytes.NewReader(text)
+			if rapid.IntRange(0, 2).Draw(t, "unknown_length") == 0 {
+				bodyReader = BodyOfUnknownLength(text)
+				r.Label("http:body-of-unknown-length")
+			}
+			req := httptest.NewRequest(tg.Op.Method, "http://h.example"+p.BasePath+concretePath(tg.Op.Template), bodyReader)
 			req.Header.Set("Content-Type", "application/json")
 			in.Reset()
 			_, pan := in.Serve(req)
